@@ -77,6 +77,7 @@ type pathCtx struct {
 	ghost         map[string]value // engine-side scratch for intrinsics
 	feasChecks    int
 	assertChecks  int
+	eqConst       map[string]string
 }
 
 func newPathCtx(run *Run, sol *solver, prefix []int32) *pathCtx {
@@ -86,7 +87,7 @@ func newPathCtx(run *Run, sol *solver, prefix []int32) *pathCtx {
 		tape: map[string]interface{}{}, covers: map[string]bool{}, notes: map[string]bool{},
 		touched: map[*ssa.Function]bool{}, budgets: map[string]int{}, counts: map[string]int{},
 		instrBudget: run.opts.InstrBudget, status: "ok", harness: run.harness,
-		urlConsts: map[string]bool{}, ghost: map[string]value{},
+		urlConsts: map[string]bool{}, ghost: map[string]value{}, eqConst: map[string]string{},
 	}
 }
 
@@ -94,9 +95,68 @@ func (p *pathCtx) note(s string)            { p.notes[s] = true }
 func (p *pathCtx) touch(fn *ssa.Function)   { p.touched[fn] = true }
 func (p *pathCtx) markInconclusive(s string) { p.inconclusive = append(p.inconclusive, s) }
 
+// splitEq recognises (= X "lit") and returns X and the decoded literal.
+func splitEq(t string) (string, string, bool) {
+	if !strings.HasPrefix(t, "(= ") || !strings.HasSuffix(t, "\")") {
+		return "", "", false
+	}
+	body := t[3 : len(t)-1]
+	// find the last top-level space before the literal
+	depth, inStr := 0, false
+	split := -1
+	for i := 0; i < len(body); i++ {
+		c := body[i]
+		if inStr {
+			if c == '"' {
+				inStr = false
+			}
+			continue
+		}
+		switch c {
+		case '"':
+			inStr = true
+		case '|':
+			j := strings.IndexByte(body[i+1:], '|')
+			if j < 0 {
+				return "", "", false
+			}
+			i += j + 1
+		case '(':
+			depth++
+		case ')':
+			depth--
+		case ' ':
+			if depth == 0 {
+				if split >= 0 {
+					return "", "", false
+				}
+				split = i
+			}
+		}
+	}
+	if split < 0 {
+		return "", "", false
+	}
+	x, lit := body[:split], body[split+1:]
+	if len(lit) < 2 || lit[0] != '"' || len(x) == 0 || x[0] == '"' {
+		return "", "", false
+	}
+	v, ok := decodeSMTString(lit)
+	return x, v, ok
+}
+
+// constOf returns the string constant a term is known to equal on this path.
+func (p *pathCtx) constOf(term string) (string, bool) {
+	v, ok := p.eqConst[term]
+	return v, ok
+}
+
 func (p *pathCtx) assertTerm(t string) {
 	if t == "true" {
 		return
+	}
+	if x, v, ok := splitEq(t); ok {
+		p.eqConst[x] = v
 	}
 	p.sol.send("(assert " + t + ")\n")
 	p.pcs = append(p.pcs, t)
@@ -129,6 +189,15 @@ func (p *pathCtx) decide(term string, fr *frame) bool {
 	neg := smtNot(term)
 	if v, ok := p.known[neg]; ok {
 		return !v
+	}
+	if x, lit, ok := splitEq(term); ok {
+		if c, ok := p.eqConst[x]; ok {
+			return c == lit
+		}
+	} else if x, lit, ok := splitEq(neg); ok {
+		if c, ok := p.eqConst[x]; ok {
+			return c != lit
+		}
 	}
 	if fr != nil && fr.fn != nil {
 		p.touch(fr.fn)
